@@ -20,11 +20,14 @@ def sh(cmd, cwd=None):
     return subprocess.run(cmd, cwd=cwd, env=ENV, shell=isinstance(cmd, str), capture_output=True, text=True)
 
 
+PROPS = "all"
+
+
 def run_checks(scratch):
     vd = os.path.join(scratch, "verif")
     os.makedirs(vd, exist_ok=True)
     shutil.copy(os.path.join(HERE, "known_findings.txt"), vd)
-    r = sh([os.path.join(HERE, "bin", "spinecheck"), "-props", "all", "-repo", os.path.join(scratch, "repo"), "-verif", vd])
+    r = sh([os.path.join(HERE, "bin", "spinecheck"), "-props", PROPS, "-repo", os.path.join(scratch, "repo"), "-verif", vd])
     hits = {}
     for line in (r.stdout + r.stderr).splitlines():
         m = re.match(r"^(VIOLATION|UNDECIDED): (C\d\d) rule=(\S+) construct=(.*?) at ", line)
@@ -77,30 +80,46 @@ def do_neutral(path):
 
 
 def main():
+    global PROPS
     only = None
     jobs = 6
     write = True
+    prop = None
+    out_json = None
+    nobuild = False
     a = sys.argv[1:]
     while a:
         x = a.pop(0)
         if x == "--only":
             only = a.pop(0)
+        elif x == "--prop":
+            prop = a.pop(0)
+            PROPS = prop
+            write = False
+        elif x == "--json":
+            out_json = a.pop(0)
+        elif x == "--no-build":
+            nobuild = True
         elif x == "--jobs":
             jobs = int(a.pop(0))
         elif x == "--no-write":
             write = False
-    b = sh("go build -o ../bin/spinecheck .", cwd=os.path.join(HERE, "checker"))
-    if b.returncode != 0:
-        print("cannot build the checker", b.stderr)
-        sys.exit(2)
-    base = run_checks_on_repo()
-    if base:
-        print("BASELINE NOT SILENT:", base)
+    if not nobuild:
+        b = sh("go build -o ../bin/spinecheck .", cwd=os.path.join(HERE, "checker"))
+        if b.returncode != 0:
+            print("cannot build the checker", b.stderr)
+            sys.exit(2)
+    if not prop:
+        base = run_checks_on_repo()
+        if base:
+            print("BASELINE NOT SILENT:", base)
     seeded = sorted(x for x in os.listdir(os.path.join(HERE, "seeded")) if os.path.isdir(os.path.join(HERE, "seeded", x)))
     neutral = sorted(os.path.join(HERE, "selftest", "neutral", x) for x in os.listdir(os.path.join(HERE, "selftest", "neutral")) if x.endswith(".json"))
     if only:
         seeded = [s for s in seeded if only in s]
         neutral = [n for n in neutral if only in n]
+    if prop:
+        seeded = [s for s in seeded if s.split("-")[0] == prop]
     res = {"seeded": {}, "neutral": {}}
     with concurrent.futures.ThreadPoolExecutor(max_workers=jobs) as ex:
         for sid, hits in ex.map(do_seeded, seeded):
@@ -136,6 +155,17 @@ def main():
     print(f"neutral: {len(neutral)} variants, noisy: {noisy}")
     if write and not only:
         json.dump(res, open(os.path.join(HERE, "selftest", "catalogue_results.json"), "w"), indent=1, sort_keys=True)
+    if out_json:
+        summary = {
+            "property": prop or "all",
+            "seeded_changes": len(seeded),
+            "seeded_detected": len(seeded) - len(missed),
+            "seeded_missed": missed,
+            "neutral_variants": len(neutral),
+            "neutral_noisy": noisy,
+            "detail": {sid: {k: v[:2] for k, v in res["seeded"][sid].items()} for sid in seeded},
+        }
+        json.dump(summary, open(out_json, "w"), indent=1, sort_keys=True)
 
 
 def run_checks_on_repo():
